@@ -5,7 +5,7 @@ CONSTANTS
   AsCodedDots = FALSE
   AsCodedNames = TRUE
   Elems <- Elems9
-  Prefixes <- Pre2
+  Prefixes <- Pre3
   MaxElems = 2
   NameElems = 1
   StmtSet = {"CHDIR", "MKDIR", "RMDIR", "OPENI", "OPENO", "OPENA", "OPENR", "LOAD", "MERGE", "CHAIN", "RUN", "BLOAD", "SAVE", "BSAVE", "FILES", "KILL", "NAME"}
